@@ -269,6 +269,36 @@ pub fn run(prop: &str, tier: &str, replay: Option<&str>) -> i32 {
         rep.add(sec);
     }
     {
+        // attribute types 2.5.4.x for every x in 0..=127 (registered ones, their neighbours, and numbers that read alike in
+        // decimal and hexadecimal: 10 / 0x10, 11 / 0x11), alone, after O and OU, and before CN: the imported subject names
+        // exactly these types
+        let mut cases: Vec<DnSpec> = Vec::new();
+        for x in 0..=127u64 {
+            // the six registered types are written by their own variants (a custom type with a registered OID reads back as the variant)
+            let t = match x {
+                3 => DnTypeSpec::Cn,
+                6 => DnTypeSpec::C,
+                7 => DnTypeSpec::L,
+                8 => DnTypeSpec::St,
+                10 => DnTypeSpec::O,
+                11 => DnTypeSpec::Ou,
+                _ => DnTypeSpec::Custom(vec![2, 5, 4, x]),
+            };
+            cases.push(DnSpec(vec![(t.clone(), if x == 6 { StrKind::Printable } else { StrKind::Utf8 }, "v".into())]));
+            if ![3u64, 10, 11].contains(&x) {
+                cases.push(DnSpec(vec![(DnTypeSpec::O, StrKind::Utf8, "o".into()), (DnTypeSpec::Ou, StrKind::Utf8, "u".into()), (t.clone(), StrKind::Utf8, "v".into()), (DnTypeSpec::Cn, StrKind::Utf8, "c".into())]));
+            }
+        }
+        let sec = Section::new("sweep/attribute types 2.5.4.x", "subject with attribute type 2.5.4.x for every x in 0..=127, alone and between O, OU and CN: generated, imported, re-issued, imported again");
+        run::sweep_cases(&sec, &cases, &|c| format!("dn={:?}", c.0), &|c| {
+            let mut st = CertState::default();
+            st.dn = c.clone();
+            st.is_ca = IsCaSpec::Unconstrained;
+            judge(&known, &st, &ctx)
+        });
+        rep.add(sec);
+    }
+    {
         // PEM texts with several blocks: whatever from_ca_cert_pem accepts is the FIRST block labelled CERTIFICATE,
         // i.e. equals the DER import of that block (a bundle is "issuing CA first"; picking another block would make
         // everything issued later name the wrong issuer)
@@ -362,10 +392,14 @@ pub fn run(prop: &str, tier: &str, replay: Option<&str>) -> i32 {
             for a in [vec![10u8, 1, 2, 3], vec![0x20, 0x01, 0x0d, 0xb8, 1, 2, 3, 4, 5, 6, 7, 8, 9, 10, 11, 12]] {
                 for ex in [false, true] {
                     cidrs.push((CidrSpec { addr: a.clone(), prefix: p, ctor: CidrCtor::AddrPrefix }, ex));
+                    // the same with a mask that is not a prefix (second octet cleared), through the public V4 / V6 variants
+                    if p as usize <= a.len() * 8 {
+                        cidrs.push((CidrSpec { addr: a.clone(), prefix: p, ctor: CidrCtor::RawHoles }, ex));
+                    }
                 }
             }
         }
-        let sec = Section::new("sweep/cidr-prefix-0..255", "address and mask of every prefix length survive import, permitted and excluded");
+        let sec = Section::new("sweep/cidr-prefix-0..255", "address and mask of every prefix length, and of every such mask with its second octet cleared (not a prefix), survive import, permitted and excluded");
         run::sweep_cases(&sec, &cidrs, &|c| format!("{} excluded={}", c.0.text(), c.1), &|c| {
             let mut st = CertState::default();
             st.is_ca = IsCaSpec::Unconstrained;
